@@ -177,6 +177,25 @@ def run(index, rep, tier):
             missing = [t for t in rl if t not in yl and not ("== 'END'" in t)]
         rep.check(not missing, "R13.3", yf.qualname, "loop guards differ: %s" % missing, fn_where(yf), "loop guards agree (%d shared)" % len(common),
                   "loop guard(s) %s of %s have no counterpart in %s: the two front ends stop at different points" % (missing, rf.qualname, yf.qualname))
+        # block-local state: what the two parsers initialise before their token loop, and what they keep on self
+        def pre_loop_inits(f):
+            out = {}
+            for st in f.node.body:
+                if isinstance(st, ast.While):
+                    break
+                if isinstance(st, ast.Assign) and len(st.targets) == 1 and isinstance(st.targets[0], ast.Name):
+                    out[st.targets[0].id] = norm(st.value)
+            return out
+        ri, yi = pre_loop_inits(rf), pre_loop_inits(yf)
+        for v in sorted(set(ri) & set(yi)):
+            rep.check(ri[v] == yi[v], "R13.3", yf.qualname, "block-local `%s` initialised differently: reader %s / yielder %s" % (v, ri[v], yi[v]), fn_where(yf),
+                      "block-local `%s` starts as %s in both front ends" % (v, ri[v]),
+                      "%s starts each block with `%s = %s` where the reader starts with `%s = %s`: state is carried from one block into the next on the one-tree-at-a-time route only (e.g. a taxon symbol mapper built for the previous block's TRANSLATE table), so the two routes resolve the same labels differently" % (yf.qualname, v, yi[v], v, ri[v]))
+        rs = {w.attr for w in writes_in(rf.node) if w.kind in ("store", "augstore") and w.base is not None and norm(w.base) == "self"}
+        ys = {w.attr for w in writes_in(yf.node) if w.kind in ("store", "augstore") and w.base is not None and norm(w.base) == "self"}
+        extra = sorted(ys - rs)
+        rep.check(not extra, "R13.3", yf.qualname, "yielder keeps state on self that the reader does not: %s" % extra, fn_where(yf), "%s stores the same self attributes as %s (%s)" % (yf.name, rf.name, sorted(rs) or "none"),
+                  "%s stores self.%s, which its sibling %s keeps block-local: parser state outlives the block on the one-tree-at-a-time route only" % (yf.qualname, ", self.".join(extra), rf.qualname))
     # newick reader vs yielder constructions
     rd = index.function(DIO + "newickreader.NewickReader._read")
     ti = index.function(DIO + "newickreader.NewickReader.tree_iter")
